@@ -38,6 +38,9 @@
      usable  : BOOLEAN                     the calculator can evaluate a neighbouring configuration
      evals   : number of calculate() calls so far
      added, deleted : Seq(index)           pending exchange bookkeeping
+     addsz : Seq(Nat)                      sizes of the particles inserted by the trial in progress (a pre-selected
+                                           particle need not have the template's size); not observable in the
+                                           context, supplied by the recorder from the insertions it saw
      pdelta  : Int                         context.particle_delta
      nexch   : Int                         context.number_of_exchange_particles
      labels  : [move id -> Seq(Int)]       one entry per *distinct* label-bearing move object
@@ -119,11 +122,12 @@ DispLegal(s, r, m, sub, ctype) ==
 
 InsSub(setup, s, r, m, sub, o) ==
     IF ~sub.ok THEN r
-    ELSE LET k == setup.tmplLen
+    ELSE LET k == IF sub.size > 0 THEN sub.size ELSE setup.tmplLen      \* a pre-selected particle brings its own size
              n0 == Len(r.m)
              new == [j \in 1..k |-> [a |-> Placeholder, mv |-> TRUE, fresh |-> TRUE]]
          IN [r EXCEPT !.m = @ \o new,
                       !.added = @ \o [j \in 1..k |-> n0 + j - 1],      \* 0-based, as the context stores them
+                      !.addsz = Append(@, k),
                       !.pdelta = @ + 1,
                       !.nins = @ + 1]
 
@@ -177,7 +181,7 @@ SubLegal(setup, s, r, m, sub, ctype) ==
          [] OTHER      -> TRUE
 
 Run0(s) == [m |-> Mark(s.atoms), cell |-> s.cell, cons |-> s.cons, gone |-> {}, displaced |-> {},
-            dellabs |-> {}, added |-> s.added, deleted |-> s.deleted, pdelta |-> s.pdelta, nins |-> 0,
+            dellabs |-> {}, added |-> s.added, addsz |-> s.addsz, deleted |-> s.deleted, pdelta |-> s.pdelta, nins |-> 0,
             ham |-> FALSE, hamfail |-> FALSE, lastK |-> s.lastK, free |-> FALSE, legal |-> TRUE]
 
 RECURSIVE Fold(_, _, _, _, _, _, _)
@@ -211,7 +215,7 @@ AfterCall(setup, s, entry, subs, o) ==
                     ELSE r.m[j].a]
         clear == [m \in DOMAIN s.presel |-> <<NoLab, NoLab, NoLab>>]
     IN [s EXCEPT !.atoms = atoms, !.cell = r.cell, !.cons = r.cons,
-                 !.added = r.added, !.deleted = r.deleted, !.pdelta = r.pdelta,
+                 !.added = r.added, !.addsz = r.addsz, !.deleted = r.deleted, !.pdelta = r.pdelta,
                  !.lastK = r.lastK,
                  \* a Hamiltonian element evaluates forces (integration); a vetoed one resets the cache
                  !.evals = IF r.ham \/ r.hamfail THEN o.evals ELSE @,
@@ -248,15 +252,17 @@ AfterEval(setup, s, entry) ==
 (* -------------------------------------------------------------------
    End of trial.
    ------------------------------------------------------------------- *)
-NoPending(s) == [s EXCEPT !.added = <<>>, !.deleted = <<>>, !.pdelta = 0]
+NoPending(s) == [s EXCEPT !.added = <<>>, !.addsz = <<>>, !.deleted = <<>>, !.pdelta = 0]
 
 (* labels after an accepted trial: every distinct label-bearing move of the
    table learns about the added and removed atoms exactly once *)
+RECURSIVE GrowBy(_, _, _)
+\* one label per inserted particle, whatever its size
+GrowBy(lab, sizes, def) == IF Len(sizes) = 0 THEN lab ELSE GrowBy(NewLabels(lab, 1, Head(sizes), def), Tail(sizes), def)
+
 LabelsAfter(setup, s) ==
     [m \in DOMAIN s.labels |->
-        LET k == setup.tmplLen
-            nadd == IF k = 0 THEN 0 ELSE Len(s.added) \div k
-            grown == NewLabels(s.labels[m], nadd, k, setup.mobj[m].defLabel)
+        LET grown == GrowBy(s.labels[m], s.addsz, setup.mobj[m].defLabel)
         IN Without(grown, {i + 1 : i \in QRange(s.deleted)})]
 
 Accept(setup, s) ==
